@@ -27,9 +27,9 @@ CTORS = ['petl.transform.conversions:FieldConvertView.__init__', 'petl.transform
          'petl.transform.maps:RowMapView.__init__', 'petl.transform.maps:RowMapManyView.__init__']
 
 
-def _policy_name(ctx, fn):
-    """name under which the failonerror policy arrives in an iterator function: the parameter that the delegating view
-    binds to self.failonerror (private parameters may be called anything), else `failonerror`"""
+def _policy_name(ctx, fn, attr='failonerror'):
+    """name under which the failonerror policy (resp. errorvalue) arrives in an iterator function: the parameter that the
+    delegating view binds to self.failonerror (private parameters may be called anything), else `failonerror`"""
     top = fn
     while top.parent is not None:
         top = top.parent
@@ -39,12 +39,12 @@ def _policy_name(ctx, fn):
                 continue
             params = list(f.posparams)
             for i, a in enumerate(call.args):
-                if i < len(params) and norm(a) == 'self.failonerror':
+                if i < len(params) and norm(a) == 'self.' + attr:
                     return params[i]
             for k in call.keywords:
-                if k.arg and norm(k.value) == 'self.failonerror':
+                if k.arg and norm(k.value) == 'self.' + attr:
                     return k.arg
-    return 'failonerror'
+    return attr
 
 
 def _policies(name):
@@ -70,7 +70,16 @@ def _handler_sites(fn, pname='failonerror'):
     return out
 
 
-def _classify(oc, exc_name):
+LOGGING_CALLS = ('debug', 'info', 'warning', 'logger.debug', 'logger.info', 'logger.warning', 'logging.debug',
+                 'logging.info', 'logging.warning', 'log.debug', 'log.info', 'log.warning')
+
+
+def _is_logging(s):
+    """a statement that only writes a log record (it may mention the exception and the policy, it delivers nothing)"""
+    return isinstance(s, ast.Expr) and isinstance(s.value, ast.Call) and norm(s.value.func) in LOGGING_CALLS
+
+
+def _classify(oc, exc_name, evname='errorvalue'):
     """What the handler does on this path."""
     if oc.kind == 'raise':
         e = oc.node.exc
@@ -79,11 +88,13 @@ def _classify(oc, exc_name):
         return 'raise-other'
     texts = []
     for s in oc.effects:
+        if _is_logging(s):
+            continue
         texts.append(s)
     if oc.kind == 'return' and oc.node.value is not None:
         texts.append(oc.node)
     uses_exc = any(exc_name and _uses_name(s, exc_name) for s in texts)
-    uses_ev = any(_uses_name(s, 'errorvalue') for s in texts)
+    uses_ev = any(_uses_name(s, evname) for s in texts)
     if uses_exc and not uses_ev:
         return 'deliver-exception'
     if uses_ev and not uses_exc:
@@ -138,11 +149,14 @@ def run(ctx):
         for tr, h in sites:
             if real:
                 n_sites += 1
-            _check_handler(rep, fn, kind, tr, h, pname)
+            evname = _policy_name(ctx, fn, 'errorvalue') if real else 'errorvalue'
+            _check_handler(rep, fn, kind, tr, h, pname, evname)
             _check_try_scope(ctx, rep, fn, tr, pname)
     ctx.floor('handler_sites', n_sites, 4)
-    r192(ctx, rep)
-    r193(ctx, rep)
+    rep.rule('R19.5', 'what the policy raises reaches the caller: no other handler between the policy handler and the consumer catches Exception without re-raising')
+    ctx.attempt(r195, ctx, rep, targets)
+    ctx.attempt(r192, ctx, rep)
+    ctx.attempt(r193, ctx, rep)
 
 
 def _deferred_policy(rep, fn, kind, pname):
@@ -187,7 +201,7 @@ def _deferred_policy(rep, fn, kind, pname):
     return False
 
 
-def _check_handler(rep, fn, kind, tr, h, pname='failonerror'):
+def _check_handler(rep, fn, kind, tr, h, pname='failonerror', evname='errorvalue'):
     exc = h.name
     atoms = set()
     for n in ast.walk(h):
@@ -204,7 +218,7 @@ def _check_handler(rep, fn, kind, tr, h, pname='failonerror'):
         except Unsupported as e:
             rep.undecided('R19.1', fn, 'failonerror=%s' % pol, str(e), h)
             continue
-        got = _classify(oc, exc)
+        got = _classify(oc, exc, evname)
         if got == want[pol]:
             rep.held('R19.1', fn, 'failonerror=%s' % pol, '-> %s' % got, h)
         else:
@@ -373,3 +387,71 @@ def r193(ctx, rep):
                     while id(st) in pm and not isinstance(st, ast.stmt):
                         st = pm[id(st)]
                     rep.violated('R19.3', fn, norm(st), 'failonerror is re-bound inside the iterator', n)
+
+
+# ------------------------------------------------------------------------- R19.5
+def r195(ctx, rep, targets):
+    """failonerror=True re-raises the user's exception from the policy handler; on its way to the consumer of the view it
+    passes every enclosing try statement of the iterator function (and of the functions that call the policy site).  A
+    handler there that catches Exception / everything and has a path that does not raise swallows it: the row is then
+    delivered unconverted, silently."""
+    from ..ladder import paths
+    tops = set()
+    for fn, kind in targets:
+        t = fn
+        while t.parent is not None:
+            t = t.parent
+        tops.add(t)
+    n = 0
+    for top in sorted(tops, key=lambda f: f.fq):
+        real = not top.module.name.startswith('petl._controls')
+        if not real:
+            continue
+        pname = _policy_name(ctx, top)
+        fns = [top]
+        todo = [top]
+        while todo:
+            f = todo.pop()
+            for g in f.nested.values():
+                fns.append(g)
+                todo.append(g)
+        # functions (nested) that contain the policy handler, and those that call them
+        policy_fns = {f.name for f in fns if _handler_sites(f, pname)}
+        grew = True
+        while grew:
+            grew = False
+            for f in fns:
+                if f.name in policy_fns:
+                    continue
+                if any(isinstance(c, ast.Call) and isinstance(c.func, ast.Name) and c.func.id in policy_fns
+                       for c in own_nodes(f.node)):
+                    policy_fns.add(f.name)
+                    grew = True
+        for f in fns:
+            for tr in [x for x in own_nodes(f.node) if isinstance(x, ast.Try)]:
+                policy_here = any(handler_types(h) & {'Exception', 'BaseException'} and _uses_name(h, pname) for h in tr.handlers)
+                if policy_here:
+                    continue
+                reaches = any(isinstance(c, ast.Call) and isinstance(c.func, ast.Name) and c.func.id in policy_fns
+                              for b in tr.body for c in ast.walk(b)) or \
+                    any(isinstance(x, ast.Try) and any(handler_types(h) & {'Exception', 'BaseException'} and _uses_name(h, pname)
+                                                       for h in x.handlers) for b in tr.body for x in ast.walk(b))
+                if not reaches:
+                    continue
+                for h in tr.handlers:
+                    types = handler_types(h)
+                    if not (types & {'Exception', 'BaseException'}) and h.type is not None:
+                        continue
+                    n += 1
+                    silent = [p for p in paths(h.body, {}) if p.kind != 'raise']
+                    c = 'except %s around %s' % (norm(h.type) if h.type is not None else '(everything)',
+                                                 '/'.join(sorted(policy_fns & {c.func.id for b in tr.body for c in ast.walk(b)
+                                                                             if isinstance(c, ast.Call) and isinstance(c.func, ast.Name)})) or 'the policy handler')
+                    if silent:
+                        rep.violated('R19.5', f, c,
+                                     'this handler encloses the point where failonerror=True re-raises the user\'s exception and '
+                                     'can complete without raising (%s): the failure never surfaces, the row is handed on as if '
+                                     'nothing had happened' % ('; '.join(silent[0].texts())[:60] or 'pass'), h)
+                    else:
+                        rep.held('R19.5', f, c, 'always re-raises', h)
+    rep.held('R19.5', ('petl.transform', '*'), 'handlers around the policy', '%d broad handler(s) enclose a policy site' % n, None)
